@@ -75,6 +75,9 @@ struct caps_hp {
     typedef std::false_type has_minmax; typedef std::true_type has_iter; typedef std::true_type ordered_iter; typedef std::true_type counted;
     typedef std::false_type update_replaces;     // update() of an existing key keeps the old item (true: swaps in the new one)
     typedef std::false_type has_unlink;          // intrusive containers: unlink( item )
+    // thread-safe iterators (C19): may be used concurrently with updates; erase_at( iterator ); reverse iterators; every element present
+    // for the whole iteration is visited exactly once (false: at least once)
+    typedef std::false_type safe_iter; typedef std::false_type has_erase_at; typedef std::false_type has_riter; typedef std::true_type iter_exactly_once;
 };
 struct caps_rcu: caps_hp { static constexpr PtrKind kind = PK_RCU; };
 struct caps_nogc: caps_hp {
@@ -157,6 +160,101 @@ struct SetAdapter
     { auto ep = mx ? st.extract_max() : st.extract_min(); bool ok = bool( ep ); if ( ok ) key = ep->key; ep.release(); return ok; }
     template <class S, class A, class B> bool do_min( S&, bool, long&, A, B ) { return false; }
 
+    // ---- iteration with thread-safe iterators (C19) ----
+    struct IterRec { int thread; bool reverse; uint64_t inv = 0, ret = 0; std::vector<std::pair<int, long>> seen; };
+    std::vector<IterRec> iters;
+    std::string it_err;
+    template <class N> static auto disposed_of( N const& n, int ) -> decltype( n.disposed != 0 ) { return n.disposed != 0; }
+    template <class N> static bool disposed_of( N const& n, long ) { return n.key == -777 || n.val == -777; }
+    template <class S, class It> bool call_erase_at( S& st, It& it, std::true_type ) { return st.erase_at( it ); }
+    template <class S, class It> bool call_erase_at( S&, It&, std::false_type ) { return false; }
+    template <class S, class It>
+    void walk( S& st, It it, It end, size_t rec, int erase_key, int t, cdsmc::History& h )
+    {
+        for ( ; it != end; ++it ) {
+            int k = it->key; long v = it->val;
+            if ( disposed_of( *it, 0 ) && it_err.empty())
+                it_err = "the iterator of t" + std::to_string( t ) + " is positioned on an element (key " + std::to_string( k ) + ") that has already been disposed";
+            iters[rec].seen.push_back( std::make_pair( k, v ));
+            if ( erase_key && k == erase_key && Caps::has_erase_at::value ) {
+                int i = h.call( t, UNLINK, k, v ); bool ok = call_erase_at( st, it, typename Caps::has_erase_at()); h.ret( i, ok );
+                erase_key = 0;
+            }
+        }
+    }
+    // the iteration is part of the recorded history (result: number of elements, and the visited keys packed base 1000) so that it
+    // shows in outcomes and replays; the sequential specification ignores it
+    void finish_iter( cdsmc::History& h, int hi, size_t rec )
+    {
+        long packed = 0; for ( auto const& kv : iters[rec].seen ) packed = packed * 1000 + ( kv.first % 1000 );
+        h.ret( hi, long( iters[rec].seen.size()), packed );
+        iters[rec].inv = h.ops[size_t( hi )].inv; iters[rec].ret = h.ops[size_t( hi )].ret;
+    }
+    template <class S> void do_iter( S& st, int t, bool, int erase_key, cdsmc::History& h, std::true_type, std::false_type )
+    {
+        iters.emplace_back(); size_t rec = iters.size() - 1; iters[rec].thread = t; iters[rec].reverse = false;
+        int hi = h.call( t, ITER, erase_key );
+        { rcu_guard<S, Caps::kind> g; (void) g; walk( st, st.begin(), st.end(), rec, erase_key, t, h ); }
+        finish_iter( h, hi, rec );
+    }
+    template <class S> void do_iter( S& st, int t, bool reverse, int erase_key, cdsmc::History& h, std::true_type, std::true_type )
+    {
+        if ( !reverse ) { do_iter( st, t, false, erase_key, h, std::true_type(), std::false_type()); return; }
+        iters.emplace_back(); size_t rec = iters.size() - 1; iters[rec].thread = t; iters[rec].reverse = true;
+        int hi = h.call( t, RITER, erase_key );
+        { rcu_guard<S, Caps::kind> g; (void) g; walk( st, st.rbegin(), st.rend(), rec, erase_key, t, h ); }
+        finish_iter( h, hi, rec );
+    }
+    template <class S, class B> void do_iter( S&, int, bool, int, cdsmc::History&, std::false_type, B ) {}
+
+    static bool is_insert( cdsmc::Op const& o ) { return (( o.op == INS || o.op == INS_F || o.op == EMPLACE ) && o.res ) || ( o.op == UPD_INS && o.res && o.res2 ); }
+    static bool is_replace( cdsmc::Op const& o ) { return Caps::update_replaces::value && ( o.op == UPD_INS || o.op == UPD_NOINS ) && o.res && !( o.op == UPD_INS && o.res2 ); }
+    static bool is_removal( cdsmc::Op const& o ) { return ( o.op == DEL || o.op == DEL_F || o.op == EXTRACT || o.op == UNLINK ) && o.res; }
+    // interval rules (DESIGN 9/C19), all conservative: an element counts as "present for the whole iteration" only if its insertion
+    // returned before the iteration was invoked and no removal or replacement of its key was invoked before the iteration returned
+    // (other than ones that returned before that insertion was invoked)
+    std::string check_iterations( cdsmc::History const& h )
+    {
+        if ( !it_err.empty()) return it_err;
+        for ( IterRec const& R : iters ) {
+            std::string who = std::string( R.reverse ? "reverse " : "" ) + "iteration by t" + std::to_string( R.thread );
+            if ( Caps::ordered_iter::value )
+                for ( size_t i = 1; i < R.seen.size(); ++i )
+                    if ( R.reverse ? !( R.seen[i - 1].first > R.seen[i].first ) : !( R.seen[i - 1].first < R.seen[i].first ))
+                        return who + " visits key " + std::to_string( R.seen[i].first ) + " after key " + std::to_string( R.seen[i - 1].first ) + ": not in key order";
+            for ( int k : cfg.keys ) {
+                bool throughout = false;
+                for ( cdsmc::Op const& I : h.ops ) {
+                    if ( I.arg != k || !( is_insert( I ) || is_replace( I )) || !( I.ret < R.inv )) continue;
+                    bool disturbed = false;
+                    for ( cdsmc::Op const& X : h.ops )
+                        if ( X.arg == k && &X != &I && ( is_removal( X ) || is_replace( X )) && X.inv < R.ret && X.ret > I.inv ) disturbed = true;
+                    if ( !disturbed ) throughout = true;
+                }
+                size_t n = 0; for ( auto const& kv : R.seen ) if ( kv.first == k ) ++n;
+                if ( throughout && n == 0 ) return who + " does not visit key " + std::to_string( k ) + " although it was present during the whole iteration";
+                if ( throughout && n > 1 && Caps::iter_exactly_once::value ) return who + " visits key " + std::to_string( k ) + " " + std::to_string( n ) + " times although it was present, unchanged, during the whole iteration";
+            }
+            for ( auto const& kv : R.seen ) {
+                // the element must have been put in by somebody before the iteration ended ...
+                bool exists = false, alive = false;
+                for ( cdsmc::Op const& I : h.ops ) {
+                    bool puts = I.arg == kv.first && I.arg2 == kv.second && ( is_insert( I ) || is_replace( I ));
+                    if ( !puts || !( I.inv < R.ret )) continue;
+                    exists = true;
+                    // ... and not taken out again completely before the iteration began
+                    bool gone = false;
+                    for ( cdsmc::Op const& X : h.ops )
+                        if ( X.arg == kv.first && &X != &I && ( is_removal( X ) || is_replace( X )) && X.inv > I.ret && X.ret < R.inv ) gone = true;
+                    if ( !gone ) alive = true;
+                }
+                if ( !exists ) return who + " visits an element (key " + std::to_string( kv.first ) + ", value " + std::to_string( kv.second ) + ") that nobody inserted";
+                if ( !alive ) return who + " visits the element (key " + std::to_string( kv.first ) + ", value " + std::to_string( kv.second ) + ") that had been removed or replaced before the iteration began";
+            }
+        }
+        return std::string();
+    }
+
     void apply( int t, cdsmc::History& h, POp const& op )
     {
         Set& st = *s;
@@ -169,6 +267,7 @@ struct SetAdapter
         case DEL: { int i = h.call( t, DEL, k ); bool ok = do_erase( st, k, typename Caps::has_erase()); h.ret( i, ok ); break; }
         case DEL_F: { int i = h.call( t, DEL_F, k ); long v = 0; bool ok = do_del_f( st, k, v, typename Caps::has_del_f()); h.ret( i, ok, Caps::has_del_f::value && ok ? v : 0 ); if ( !Caps::has_del_f::value ) h.ops[size_t( i )].op = DEL; break; }
         case UNLINK: { int i = h.call( t, UNLINK, k, k * 10L ); bool ok = do_unlink( st, k, typename Caps::has_unlink()); h.ret( i, ok ); break; }
+        case ITER: case RITER: { if ( iters.capacity() < 16 ) iters.reserve( 16 ); do_iter( st, t, op.op == RITER, k, h, typename Caps::safe_iter(), typename Caps::has_riter()); break; }
         case HAS: { int i = h.call( t, HAS, k ); bool ok = st.contains( k ); h.ret( i, ok ); break; }
         case FIND_F: { int i = h.call( t, FIND_F, k ); long v = 0; bool ok = do_find_f( st, k, v, typename Caps::has_find_f()); h.ret( i, ok, ok ? v : 0 ); if ( !Caps::has_find_f::value ) h.ops[size_t( i )].op = HAS; break; }
         case UPD_INS: case UPD_NOINS: {
@@ -221,10 +320,11 @@ struct SetAdapter
         // final contents become part of the history: they must be explained by the linearization
         for ( int k : cfg.keys ) { if ( k <= 0 ) continue; int i = h.call( -1, FIND_F, k ); long v = 0; bool ok = do_find_f( *s, k, v, typename Caps::has_find_f()); h.ret( i, ok, ok ? v : 0 ); if ( !Caps::has_find_f::value ) h.ops[size_t( i )].op = HAS; }
     }
-    void post_check( cdsmc::Result& r, cdsmc::History const& )
+    void post_check( cdsmc::Result& r, cdsmc::History const& h )
     {
         if ( !q_err.empty()) r.fail( "C18:quiescent-structure", q_err );
         if ( !r.failed ) { std::string e = final_checker<Set>::run( Prop()); if ( !e.empty()) r.fail( std::string( Prop()) + ":disposer", e ); }
+        if ( !r.failed && !iters.empty()) { std::string e = check_iterations( h ); if ( !e.empty()) r.fail( "C19:iteration", e ); }
     }
     SetSpec spec() const { SetSpec sp; sp.map_values = true; sp.update_replaces = Caps::update_replaces::value; return sp; }
 };
@@ -301,6 +401,44 @@ inline void add_unlink_programs( std::vector<cdsmc::Scenario>& out, std::string 
     P( "unlink-vs-replace", { { INS, 1, 0 } }, { { { UNLINK, 1, 0 }, { FIND_F, 1, 0 } }, { { DEL, 1, 0 }, { INS_F, 1, 17 } } } );
     P( "unlink-vs-extract", { { INS, 1, 0 }, { INS, 2, 0 } }, { { { UNLINK, 1, 0 } }, { { EXTRACT, 1, 0 }, { GET, 2, 0 } } } );
     P( "3t-unlink-ins-ins", { { INS, 2, 0 } }, { { { UNLINK, 2, 0 } }, { { INS, 1, 0 } }, { { INS, 3, 0 }, { HAS, 2, 0 } } } );
+}
+
+// C19: one iterating thread against updating threads; km = { 0, a, b, c, d } with a < b < c present at the start and d a new key.
+// Every element gets its own value (the identity erase_at() and the interval rules go by).
+template <class Adapter, class Caps>
+inline void add_iter_programs( std::vector<cdsmc::Scenario>& out, std::string const& base, std::vector<int> km, std::vector<int> universe, int bq, int bt )
+{
+    auto P = [&]( std::string name, TProg pre, std::vector<TProg> th ) {
+        Program p; p.name = name; p.prefix = pre; p.threads = th;
+        for ( auto& o : p.prefix ) o.a = km[size_t( o.a )];
+        for ( auto& t : p.threads ) for ( auto& o : t ) o.a = km[size_t( o.a )];
+        out.push_back( make_scenario<Adapter>( base, p, SetCfg( int( th.size()), universe ), 0, th.size() > 2 ? ( bq > 1 ? bq - 1 : 1 ) : bq, th.size() > 2 ? bt - 1 : bt ));
+    };
+    TProg abc = { { INS, 1, 0 }, { INS, 2, 0 }, { INS, 3, 0 } };
+    std::vector<int> dirs = { ITER }; if ( Caps::has_riter::value ) dirs.push_back( RITER );
+    for ( int it : dirs ) {
+        std::string d = it == ITER ? "" : "r";
+        P( d + "iter-vs-del", abc, { { { it, 0, 0 } }, { { DEL, 2, 0 } } } );
+        P( d + "iter-vs-del-first", abc, { { { it, 0, 0 } }, { { DEL, 1, 0 }, { INS_F, 1, 91 } } } );
+        P( d + "iter-vs-del-last", abc, { { { it, 0, 0 } }, { { DEL, 3, 0 }, { DEL, 2, 0 } } } );
+        P( d + "iter-vs-ins", abc, { { { it, 0, 0 } }, { { INS_F, 4, 92 } } } );
+        P( d + "iter-vs-upsert", abc, { { { it, 0, 0 } }, { { UPD_INS, 2, 93 } } } );
+        P( d + "iter-vs-del-ins", abc, { { { it, 0, 0 } }, { { DEL, 2, 0 }, { INS_F, 2, 94 } } } );
+        P( d + "iter-iter-vs-del-ins", abc, { { { it, 0, 0 }, { it, 0, 0 } }, { { DEL, 2, 0 }, { INS_F, 2, 98 } } } );
+        P( d + "3t-iter-del-ins", abc, { { { it, 0, 0 } }, { { DEL, 1, 0 } }, { { INS_F, 4, 97 }, { DEL, 3, 0 } } } );
+        P( d + "iter-grow", { { INS, 1, 0 } }, { { { it, 0, 0 } }, { { INS_F, 2, 81 }, { INS_F, 3, 82 } } } );
+        if ( Caps::has_erase_at::value ) {
+            P( d + "eraseat-vs-del", abc, { { { it, 2, 0 }, { HAS, 2, 0 } }, { { DEL, 2, 0 } } } );
+            P( d + "eraseat-vs-upsert", abc, { { { it, 2, 0 } }, { { UPD_INS, 2, 95 }, { FIND_F, 2, 0 } } } );
+            P( d + "eraseat-vs-eraseat", abc, { { { it, 2, 0 } }, { { it, 2, 0 } } } );
+            P( d + "eraseat-vs-extract-reinsert", abc, { { { it, 2, 0 } }, { { DEL, 2, 0 }, { INS_F, 2, 96 } } } );
+            // linking an adjacent item marks the neighbours' data pointers for a moment: erase_at() must not give up because of that
+            P( d + "eraseat-vs-ins-adjacent", abc, { { { it, 2, 0 }, { HAS, 2, 0 } }, { { INS_F, 4, 92 } } } );
+            P( d + "eraseat-last-vs-ins-adjacent", abc, { { { it, 3, 0 }, { HAS, 3, 0 } }, { { INS_F, 4, 92 }, { DEL, 4, 0 } } } );
+            P( d + "eraseat-single", { { INS, 1, 0 } }, { { { it, 1, 0 } }, { { DEL, 1, 0 }, { INS_F, 1, 99 } } } );
+            P( d + "3t-eraseat-del-ins", abc, { { { it, 2, 0 } }, { { DEL, 2, 0 } }, { { INS_F, 4, 97 }, { FIND_F, 2, 0 } } } );
+        }
+    }
 }
 
 } // namespace vh
